@@ -332,6 +332,12 @@ func runSendJoin(r *harness.Run, c sjCase) (bool, error) {
 	case "other-key":
 		opt.BadSignature = true
 	}
+	var verifier gmsl.JSONVerifier = fedgen.Verifier{}
+	if c.Signature == "key-not-valid-at-event-time" {
+		// a genuinely signed event dated in the year 2100, and a key ring that knows the key to be valid until 2090 only
+		e.TS = 4102444800000
+		verifier = timedVerifier{3786912000000}
+	}
 	real, _, err := fedgen.Materialise(h, map[string]fedgen.Opt{e.ID: opt})
 	if err != nil {
 		return false, fmt.Errorf("harness: %v", err)
@@ -356,7 +362,7 @@ func runSendJoin(r *harness.Run, c sjCase) (bool, error) {
 	}
 	rid, _ := spec.NewRoomID(fedgen.RealRoom(h, real))
 	in := gmsl.HandleSendJoinInput{Context: context.Background(), RoomID: *rid, EventID: reqEventID, JoinEvent: rr.JSON, RoomVersion: gmsl.RoomVersion(c.Version), RequestOrigin: spec.ServerName(origin),
-		LocalServerName: local, KeyID: gmsl.KeyID(localKey.KeyID), PrivateKey: localKey.Priv, Verifier: fedgen.Verifier{}, MembershipQuerier: memQ{m: c.Current, err: c.QuerierError}, UserIDQuerier: fedgen.UID,
+		LocalServerName: local, KeyID: gmsl.KeyID(localKey.KeyID), PrivateKey: localKey.Priv, Verifier: verifier, MembershipQuerier: memQ{m: c.Current, err: c.QuerierError}, UserIDQuerier: fedgen.UID,
 		StoreSenderIDFromPublicID: func(ctx context.Context, s spec.SenderID, u string, r spec.RoomID) error { return nil }}
 	var resp *gmsl.HandleSendJoinResponse
 	var herr error
@@ -495,6 +501,11 @@ func runInvite(r *harness.Run, c invCase) (bool, error) {
 	case "other-key":
 		opt.BadSignature = true
 	}
+	var verifier gmsl.JSONVerifier = fedgen.Verifier{}
+	if c.Signature == "key-not-valid-at-event-time" {
+		e.TS = 4102444800000 // the year 2100; the key is known to be valid until 2090
+		verifier = timedVerifier{3786912000000}
+	}
 	// fedgen signs invites with the target's server too; the local server's signature must come from the handler
 	real, _, err := fedgen.Materialise(h, map[string]fedgen.Opt{e.ID: opt})
 	if err != nil {
@@ -527,7 +538,7 @@ func runInvite(r *harness.Run, c invCase) (bool, error) {
 		sq.events = []gmsl.PDU{p}
 	}
 	in := gmsl.HandleInviteInput{RoomID: *rid, RoomVersion: gmsl.RoomVersion(c.Version), InvitedUser: *iu, InvitedSenderID: spec.SenderID(invited), InviteEvent: ev, StrippedState: stripped,
-		KeyID: gmsl.KeyID(localKey.KeyID), PrivateKey: localKey.Priv, Verifier: fedgen.Verifier{}, RoomQuerier: roomQ{c.Known, c.RoomQErr}, MembershipQuerier: memQ{m: c.Current, who: target}, StateQuerier: sq, UserIDQuerier: fedgen.UID}
+		KeyID: gmsl.KeyID(localKey.KeyID), PrivateKey: localKey.Priv, Verifier: verifier, RoomQuerier: roomQ{c.Known, c.RoomQErr}, MembershipQuerier: memQ{m: c.Current, who: target}, StateQuerier: sq, UserIDQuerier: fedgen.UID}
 	var out gmsl.PDU
 	var herr error
 	if p, msg := harness.Try(func() { out, herr = gmsl.HandleInvite(context.Background(), in) }); p {
@@ -977,6 +988,20 @@ func (staticDB) StoreKeys(context.Context, map[gmsl.PublicKeyLookupRequest]gmsl.
 
 func canon(v interface{}) []byte { return evgen.CanonOf(v) }
 
+// timedVerifier is the static verifier with a validity limit: a request about an instant after validUntil is refused, as a
+// key ring does for a key whose validity ended before the event's origin_server_ts.
+type timedVerifier struct{ validUntil int64 }
+
+func (t timedVerifier) VerifyJSONs(ctx context.Context, reqs []gmsl.VerifyJSONRequest) ([]gmsl.VerifyJSONResult, error) {
+	out, err := fedgen.Verifier{}.VerifyJSONs(ctx, reqs)
+	for i, rq := range reqs {
+		if err == nil && int64(rq.AtTS) > t.validUntil && out[i].Error == nil {
+			out[i].Error = fmt.Errorf("key of %s not valid at %d", rq.ServerName, rq.AtTS)
+		}
+	}
+	return out, err
+}
+
 func main() { harness.Main("C15", "fault_enumeration", run) }
 
 func run(r *harness.Run) {
@@ -1091,7 +1116,7 @@ func run(r *harness.Run) {
 				for _, rm := range bools {
 					for _, em := range bools {
 						for _, om := range bools {
-							for _, sg := range []string{"valid", "absent", "other-key", "valid+forged-local"} {
+							for _, sg := range []string{"valid", "absent", "other-key", "valid+forged-local", "key-not-valid-at-event-time"} {
 								for _, cur := range []string{"", "join", "ban", "leave", "invite"} {
 									for _, via := range []string{"", "local", "remote", "malformed"} {
 										for _, qe := range bools {
@@ -1124,7 +1149,7 @@ func run(r *harness.Run) {
 		for _, k := range []string{"invite", "join", "topic"} {
 			for _, tg := range []string{"invited", "other"} {
 				for _, rm := range bools {
-					for _, sg := range []string{"valid", "absent", "other-key", "valid+forged-local"} {
+					for _, sg := range []string{"valid", "absent", "other-key", "valid+forged-local", "key-not-valid-at-event-time"} {
 						for _, kn := range bools {
 							for _, cur := range []string{"", "join", "leave", "invite"} {
 								for _, sp := range []string{"given", "empty-state-from-querier", "state-from-querier"} {
